@@ -54,16 +54,9 @@ def gen(ctx):
     # the end of the bit stream, deterministically: for every Micro QR symbol (and the two smallest QR versions and three rMQR
     # versions) segment lists that leave exactly 0..12 bits of the data capacity, so that the terminator, the byte alignment,
     # the pad codewords and the 4-bit final codeword of M1/M3 are met in every relative position
-    tail_cfgs = [('mq', v, l) for (v, l) in symgen.configs('mq')] + [('qr', v, l) for v in (1, 2) for l in (0, 1, 2, 3)] + [('rm', v, l) for v in (0, 10, 16) for l in (0, 1)]
-    for (sym, ver, level) in tail_cfgs:
-        ms = symgen.masks(sym)
-        for spare in range(0, 13):
-            lists = symgen.exact_lists(sym, ver, level, spare, 2, 2 if ctx.tier == 'quick' else 6)
-            for li, lst in enumerate(lists):
-                segs = [(symgen.ref(sym).MODE[k], symgen.payload(r, k, n)) for k, n in lst]
-                mask = 0 if sym == 'rm' else ms[(spare + li + ver) % len(ms)]
-                enc.append(symgen.enc_line(sym, ver, level, mask, segs))
-                meta.append((sym, ver, level, mask, segs, 'tail-spare-%d' % spare))
+    for t in symgen.tail_corpus(r, ctx.tier == 'quick'):
+        enc.append(symgen.enc_line(t[0], t[1], t[2], t[3], t[4]))
+        meta.append(t)
     ctx.c02 = meta
     # function-level correspondence (implementation against model only; OFF by default, VERIF_FUNC_LEVEL=1 switches it on):
     # the data stream (encodeSegments) and the interleaved codeword sequence (encodeToBits) of the same descriptions.
